@@ -752,6 +752,23 @@ func checkRoundWindow(c *Ctx, r *Run) {
 		// constants assigned to FinalRoundNumber
 		var finals []int64
 		var firsts []*roundInfo
+		// (the session description may be built by a helper of the package: signInfo(...))
+		for _, g := range regionOf(fn) {
+			if g == fn {
+				continue
+			}
+			allInstrs(g, func(in ssa.Instruction) {
+				if st, ok := in.(*ssa.Store); ok {
+					if fa, ok := st.Addr.(*ssa.FieldAddr); ok && namedOf(derefType(fa.X.Type())) == infoN {
+						if fv := fieldVar(derefType(fa.X.Type()), fa.Field); fv != nil && fv.Name() == "FinalRoundNumber" {
+							if k, ok := constInt(callerVal(st.Val)); ok {
+								finals = append(finals, k)
+							}
+						}
+					}
+				}
+			})
+		}
 		allInstrs(fn, func(in ssa.Instruction) {
 			if st, ok := in.(*ssa.Store); ok {
 				if fa, ok := st.Addr.(*ssa.FieldAddr); ok && namedOf(fa.X.Type()) == infoN {
